@@ -70,15 +70,14 @@ func (s *streamWriter) Invoke(msgs []actor.Envelope) {
 			senderID int32
 			targetID int32
 		)
-		typeID, typeNames = lookupTypeName(typeLookup, s.serializer.TypeName(stream.msg), typeNames)
-		senderID, senders = lookupPIDs(senderLookup, stream.sender, senders)
-		targetID, targets = lookupPIDs(targetLookup, stream.target, targets)
-
 		b, err := s.serializer.Serialize(stream.msg)
 		if err != nil {
 			slog.Error("serialize", "err", err)
 			continue
 		}
+		typeID, typeNames = lookupTypeName(typeLookup, s.serializer.TypeName(stream.msg), typeNames)
+		senderID, senders = lookupPIDs(senderLookup, stream.sender, senders)
+		targetID, targets = lookupPIDs(targetLookup, stream.target, targets)
 
 		messages = append(messages, &Message{
 			Data:          b,
